@@ -25,13 +25,22 @@ Lemma term_cmd k : exists h, term_of (cmd_name k) = Some h.
 Proof. destruct k; eexists; reflexivity. Qed.
 
 (* the leader's handler, reduced to the one boolean that matters *)
+Definition remote_outcome (k : kind) (d : dbres) : pres :=
+  match d, k with
+  | DOk, _ => PRemote
+  | DErr, _ => PRemoteErr
+  | DErrUnauthorizedText, KBackup => PRemoteErr
+  | DErrUnauthorizedText, KLoad => PRemoteErr
+  | DErrUnauthorizedText, _ => PUnauthorized
+  end.
+
 Lemma remote_cases k e u p :
   remote k e u p =
   if leader_authorizes k e u p
-  then (if l_db_ok e then PRemote else PRemoteErr, [(call_name k, u, p)])
+  then (remote_outcome k (l_db e), [(call_name k, u, p)])
   else (PUnauthorized, []).
 Proof.
-  unfold remote, leader_authorizes.
+  unfold remote, leader_authorizes, remote_outcome.
   destruct (term_cmd k) as [h Hh]. rewrite Hh.
   rewrite (run_konst _ h _ false true Hh).
   destruct k; cbn [cmd_name] in *;
@@ -39,7 +48,7 @@ Proof.
     match goal with |- context [required ?n] => change (required n) with (ltac:(let v := eval vm_compute in (required n) in exact v)) end;
     cbv beta iota;
     match goal with |- context [holds ?a ?v ?g] => destruct (holds a v g) end;
-    vm_compute; destruct (l_db_ok e); reflexivity.
+    vm_compute; destruct (l_db e); reflexivity.
 Qed.
 
 (* ---- the theorems ---- *)
@@ -50,15 +59,16 @@ Qed.
    The local store operation ran once (and refused). *)
 Theorem forward_transparent k e u p :
   f_local e = LNotLeader -> f_addr e = AKnown ->
-  leader_authorizes k e u p = true -> l_db_ok e = true ->
+  leader_authorizes k e u p = true -> l_db e = DOk ->
   serve k e false u p =
-  ({| h_status := 200;
+  ({| h_body := match k with KRemove | KStepdown => BEmpty | KLoad => BOther | _ => BResults end;
+      h_status := 200;
       h_results := if has_results k then SLeader else SNobody;
       h_index := if json_errors k then SLeader else SNobody;
       h_served_by := match k with KBackup => SNobody | _ => SLeader end |},
    {| t_local := 1; t_addr := 1; t_remote := [(call_name k, u, p)] |}).
 Proof.
-  intros Hl Ha Hz Hd. unfold serve, proxy. rewrite Hl, Ha, remote_cases, Hz, Hd. reflexivity.
+  intros Hl Ha Hz Hd. unfold serve, proxy. rewrite Hl, Ha, remote_cases, Hz, Hd. destruct k; reflexivity.
 Qed.
 
 (* The client asked for a redirect: nothing is forwarded, nothing is executed anywhere, the answer is
@@ -66,7 +76,7 @@ Qed.
 Theorem redirect_not_forwarded k e u p :
   f_local e = LNotLeader ->
   serve k e true u p =
-  ({| h_status := if l_api_known e then 301 else 500;
+  ({| h_body := BAny; h_status := if l_api_known e then 301 else 500;
       h_results := SNobody; h_index := SNobody; h_served_by := SNobody |},
    {| t_local := 1; t_addr := 0; t_remote := [] |}).
 Proof. intros Hl. unfold serve, proxy. rewrite Hl. reflexivity. Qed.
@@ -75,9 +85,42 @@ Proof. intros Hl. unfold serve, proxy. rewrite Hl. reflexivity. Qed.
 Theorem forward_unauthorized k e u p :
   f_local e = LNotLeader -> f_addr e = AKnown -> leader_authorizes k e u p = false ->
   serve k e false u p =
-  ({| h_status := 401; h_results := SNobody; h_index := SNobody; h_served_by := SNobody |},
+  ({| h_body := BAny; h_status := 401; h_results := SNobody; h_index := SNobody; h_served_by := SNobody |},
    {| t_local := 1; t_addr := 1; t_remote := [] |}).
 Proof. intros Hl Ha Hz. unfold serve, proxy. rewrite Hl, Ha, remote_cases, Hz. reflexivity. Qed.
+
+(* Transparency for errors: the forwarded-to node executed the call and answered with an error (it
+   has just lost leadership: "not leader"; "leader not found"; a stale read; an execution error):
+   exactly one call there, and the client receives an error response carrying THAT error's text —
+   status 200 with a JSON error for execute/query/request, 500 otherwise — never a redirect it did
+   not ask for, never nothing. *)
+Theorem forward_error_transparent k e u p :
+  f_local e = LNotLeader -> f_addr e = AKnown ->
+  leader_authorizes k e u p = true -> l_db e = DErr ->
+  serve k e false u p =
+  ({| h_body := match k with KBackup => BAny | _ => BRemoteError end;
+      h_status := if json_errors k then 200 else 500;
+      h_results := SNobody; h_index := SNobody; h_served_by := SNobody |},
+   {| t_local := 1; t_addr := 1; t_remote := [(call_name k, u, p)] |}).
+Proof.
+  intros Hl Ha Hz Hd. unfold serve, proxy. rewrite Hl, Ha, remote_cases, Hz, Hd. reflexivity.
+Qed.
+
+(* The handler rule: a 301 is written only when the client asked for a redirect; and a request that
+   did not ask for one is never answered with nothing — an empty body only for a remove / stepdown
+   that somebody executed. *)
+Theorem redirect_only_if_requested k e u p :
+  let o := fst (serve k e false u p) in
+  h_status o <> 301%N /\
+  (h_body o = BEmpty -> (k = KRemove \/ k = KStepdown) /\ h_status o = 200%N /\ h_served_by o <> SNobody).
+Proof.
+  unfold serve, proxy.
+  destruct (f_local e);
+    [ | destruct (f_addr e);
+        [ rewrite remote_cases; destruct (leader_authorizes k e u p); [destruct (l_db e)|] | | ] | ];
+  destruct k; cbn; (split; [discriminate|]); intros H; try discriminate H;
+  (split; [auto|split; [reflexivity|discriminate]]).
+Qed.
 
 (* In every situation: the local store operation is tried exactly once (never again after a
    forward), at most one call reaches the leader, only for a refused request without redirect, and
@@ -93,7 +136,7 @@ Proof.
   assert (T : forall (P : Prop), P -> P) by auto.
   destruct (f_local e) eqn:Hl;
     [ | destruct nf; [ | destruct (f_addr e);
-          [ rewrite remote_cases; destruct (leader_authorizes k e u p); [destruct (l_db_ok e)|] | | ] ] | ];
+          [ rewrite remote_cases; destruct (leader_authorizes k e u p); [destruct (l_db e); destruct k|] | | ] ] | ];
   cbn; repeat split; try lia; try contradiction;
   try (intros c [<-|[]]; auto; fail);
   try (intro HH; reflexivity);
@@ -217,12 +260,12 @@ Qed.
 (* ---- non-vacuity ---- *)
 Example ex_leader_file := [ {| username := "u1"; password := "pw1"; perms := ["execute"; "query"] |} ].
 Example ex_env := {| f_local := LNotLeader; f_addr := AKnown; l_store := Some (load ex_leader_file);
-                     l_db_ok := true; l_api_known := true |}.
+                     l_db := DOk; l_api_known := true |}.
 Example ex_forward :
   serve KExecute ex_env false "u1" "pw1" =
-    ({| h_status := 200; h_results := SLeader; h_index := SLeader; h_served_by := SLeader |},
+    ({| h_body := BResults; h_status := 200; h_results := SLeader; h_index := SLeader; h_served_by := SLeader |},
      {| t_local := 1; t_addr := 1; t_remote := [("Execute", "u1", "pw1")] |})
-  /\ fst (serve KExecute ex_env true "u1" "pw1") = {| h_status := 301; h_results := SNobody; h_index := SNobody; h_served_by := SNobody |}
-  /\ fst (serve KBackup ex_env false "u1" "pw1") = {| h_status := 401; h_results := SNobody; h_index := SNobody; h_served_by := SNobody |}
+  /\ fst (serve KExecute ex_env true "u1" "pw1") = {| h_body := BAny; h_status := 301; h_results := SNobody; h_index := SNobody; h_served_by := SNobody |}
+  /\ fst (serve KBackup ex_env false "u1" "pw1") = {| h_body := BAny; h_status := 401; h_results := SNobody; h_index := SNobody; h_served_by := SNobody |}
   /\ leader_authorizes KExecute ex_env "u1" "pw1" = true /\ leader_authorizes KBackup ex_env "u1" "pw1" = false.
 Proof. vm_compute. auto. Qed.
